@@ -11,8 +11,9 @@ model("Interrupt", module="usim._core.loop",
       ghost={"sub": OPT(REF("Notification")),     # notification this interrupt is currently subscribed to
              "target": ANY,                         # the activity it is addressed to
              "due": REAL,                           # queue key under which it was scheduled
-             "pos": INT},                           # index in sub._waiting while parked
-      ghost_defaults={"sub": None, "target": None},
+             "pos": INT,                            # index in sub._waiting while parked
+             "immediate": BOOL},                    # subscribed to a condition that already held (delivered at once)
+      ghost_defaults={"sub": None, "target": None, "immediate": False},
       final=["token"])
 
 model("Loop", module="usim._core.loop",
